@@ -94,6 +94,35 @@ func writeFacts(repo, out string) error {
 		})
 		return sel
 	}
+	// F6: the statement poll sets the pending labels aside around the received function
+	// (x := rt.labels; rt.labels = nil; value(); rt.labels = x)
+	pollKeepsLabels := func(st ast.Stmt) bool {
+		ok := false
+		ast.Inspect(st, func(x ast.Node) bool {
+			cc, isCC := x.(*ast.CommClause)
+			if !isCC || cc.Comm == nil || !hasSel(cc.Comm, "Interrupt") || len(cc.Body) != 4 {
+				return true
+			}
+			save, ok1 := cc.Body[0].(*ast.AssignStmt)
+			clear, ok2 := cc.Body[1].(*ast.AssignStmt)
+			call, ok3 := cc.Body[2].(*ast.ExprStmt)
+			back, ok4 := cc.Body[3].(*ast.AssignStmt)
+			if !(ok1 && ok2 && ok3 && ok4) || len(save.Lhs) != 1 || len(back.Rhs) != 1 || len(clear.Rhs) != 1 {
+				return true
+			}
+			id, isID := save.Lhs[0].(*ast.Ident)
+			id2, isID2 := back.Rhs[0].(*ast.Ident)
+			nilID, isNil := clear.Rhs[0].(*ast.Ident)
+			_, isCall := call.X.(*ast.CallExpr)
+			if isID && isID2 && isNil && isCall && id.Name == id2.Name && nilID.Name == "nil" && save.Tok.String() == ":=" &&
+				hasSel(save.Rhs[0], "labels") && hasSel(clear.Lhs[0], "labels") && hasSel(back.Lhs[0], "labels") {
+				ok = true
+			}
+			return true
+		})
+		return ok
+	}
+	stmtPollKeeps := false
 
 	for _, f := range files {
 		base := filepath.Base(f)
@@ -178,6 +207,9 @@ func writeFacts(repo, out string) error {
 					}
 				}
 				pollTop[name] = len(list) > k && isPollIf(list[k], false)
+				if name == "cmplEvaluateNodeStatement" && len(list) > k {
+					stmtPollKeeps = pollKeepsLabels(list[k])
+				}
 			}
 			if name == "cmplEvaluateNodeStatement" {
 				ast.Inspect(fd.Body, func(x ast.Node) bool {
@@ -262,6 +294,7 @@ func writeFacts(repo, out string) error {
 	}
 	b.WriteString("]\n\n")
 	fmt.Fprintf(&b, "def forEmptyBodyPoll : Bool := %v\n\n", forPoll)
+	fmt.Fprintf(&b, "def stmtPollKeepsLabels : Bool := %v\n\n", stmtPollKeeps)
 	b.WriteString("def evaluatorLoops : List (String × Bool) := [")
 	for i, l := range loops {
 		if i > 0 {
